@@ -681,6 +681,7 @@ def _rand_eval(rnd, o, big=False, fam='Nasa', k=0):
         n, scalar = rnd.randint(2, 6), False
     Ts = [round(rnd.uniform(150.0, 3000.0), rnd.choice([0, 1, 3])) for _ in range(n)]
     ttype, order = 'float', 'shuffled'
+    on_break = rnd.random() < 0.25      # one temperature exactly ON the break between the two segments (T_MID)
     if rnd.random() < 0.3:              # integer-typed temperatures
         if scalar:
             ttype, Ts = 'intscalar', [float(rnd.randint(150, 3000))]
@@ -695,6 +696,8 @@ def _rand_eval(rnd, o, big=False, fam='Nasa', k=0):
                 Ts = [float(rnd.randint(150, 3000)) for _ in range(n)]
     else:
         ttype = rnd.choice(['float', 'float', 'npfloat', 'floatlist', 'tuple'])
+    if on_break and ttype != 'arange':
+        Ts[rnd.randrange(n)] = T_MID
     if n > 1 and ttype != 'arange':     # order of the array: ascending, descending, with duplicates
         r = rnd.random()
         if r < 0.2:
